@@ -22,6 +22,10 @@ var (
 	prng = rand.Reader
 )
 
+// maxScryptCost bounds N*R*P of unmarshalled parameters (2 GiB of memory at
+// most); the keystore uses N=2^18, R=8, P=1.
+const maxScryptCost = 1 << 24
+
 // Error types and messages.
 var (
 	ErrInvalidPassword = errors.New("invalid password")
@@ -183,6 +187,15 @@ func (sk *SecretKey) Unmarshal(marshalled []byte) error {
 	params.R = int(binary.LittleEndian.Uint64(marshalled[:8]))
 	marshalled = marshalled[8:]
 	params.P = int(binary.LittleEndian.Uint64(marshalled[:8]))
+
+	// The parameters may come from a keystore file that was altered. scrypt
+	// allocates 128*N*R bytes and does N*R*P work: refuse values far beyond
+	// anything created here instead of letting scrypt exhaust the memory.
+	if params.N <= 0 || params.R <= 0 || params.P <= 0 ||
+		params.N > maxScryptCost || params.R > maxScryptCost/params.N ||
+		params.P > maxScryptCost/(params.N*params.R) {
+		return ErrMalformed
+	}
 
 	return nil
 }
